@@ -52,12 +52,15 @@ static void viol(const char *sig, const char *cs, const char *fmt, ...) {
 /* ------------------------------------------------------------------ routines, baselines */
 enum { RT_GSSV, RT_GSSVX, RT_GSTRS, RT_GSRFS, RT_GSCON, RT_GSEQU, RT_TRSV, RT_GEMV, NRT };
 static const char *RT_NAME[NRT] = { "gssv", "gssvx", "gstrs", "gsrfs", "gscon", "gsequ", "trsv", "gemv" };
-static const int RT_NBASE[NRT] = { 2, 4, 2, 3, 2, 1, 4, 2 };
+static const int RT_NBASE[NRT] = { 2, 4, 3, 4, 2, 1, 4, 2 };
+/* baselines with ZERO right-hand sides (B and X are n x 0; added after seeded change C15/3 was missed): a legal call that the routines answer by a quick
+   return, around which every argument violation must still be reported */
+static int base_nrhs(int rt, int base) { return (rt == RT_GSTRS && base == 2) || (rt == RT_GSRFS && base == 3) ? 0 : 2; }       /* 2 = WNRHS */
 static const char *BASE_NAME[NRT][4] = {
     { "nc", "nr" },
     { "dofact-nc", "dofact-nr", "equil-nc-trans", "factored-nc" },
-    { "notrans", "trans" },
-    { "notrans", "trans", "notrans-both" },
+    { "notrans", "trans", "notrans-nrhs0" },
+    { "notrans", "trans", "notrans-both", "notrans-nrhs0" },
     { "one", "inf" },
     { "nc" },
     { "LNU", "UNN", "LTU", "UTN" },
@@ -139,7 +142,7 @@ static int make_factors(world_t *W) {
 
 static int build_world(world_t *W, int rt, int base) {
     memset(W, 0, sizeof *W);
-    int n = WN, nrhs = WNRHS, ldb = WN + 1;
+    int n = WN, nrhs = base_nrhs(rt, base), ldb = WN + 1;
     W->rt = rt; W->base = base; W->n = n; W->nrhs = nrhs; W->ldb = ldb;
     vf_ienv[1] = 1; vf_ienv[2] = 1; vf_ienv[3] = 4; vf_ienv[4] = 200; vf_ienv[5] = 100; vf_ienv[6] = -50; vf_ienv[7] = -50; vf_ienv[8] = -30;
     int scaled = (rt == RT_GSSVX && base == 3) || (rt == RT_GSRFS && base == 2);
@@ -381,12 +384,12 @@ static int holds(world_t *W, const viol_t *v) {
 /* the headers and scalars of a legal argument set without any library call: enough to apply violations and to evaluate holds() */
 static void dry_world(world_t *W, int rt, int base) {
     static real_t ones_r[WN + 1], ones_c[WN + 1];
-    memset(W, 0, sizeof *W); W->rt = rt; W->base = base; W->n = WN; W->nrhs = WNRHS; W->ldb = WN + 1;
+    memset(W, 0, sizeof *W); W->rt = rt; W->base = base; W->n = WN; W->nrhs = base_nrhs(rt, base); W->ldb = WN + 1;
     for (int i = 0; i <= WN; i++) ones_r[i] = ones_c[i] = 1;
     W->R = ones_r; W->C = ones_c;
     SuperMatrix *A = &W->am.A; A->Stype = SLU_NC; A->Dtype = SLU_DT; A->Mtype = SLU_GE; A->nrow = A->ncol = WN;
     W->L = *A; W->L.Stype = SLU_SCP; W->L.Mtype = SLU_TRLU; W->U = *A; W->U.Stype = SLU_NCP; W->U.Mtype = SLU_TRU;
-    dn_build(&W->B, &W->Bst, NULL, WN, WNRHS, WN + 1); dn_build(&W->X, &W->Xst, NULL, WN, WNRHS, WN + 1);
+    dn_build(&W->B, &W->Bst, NULL, WN, W->nrhs, WN + 1); dn_build(&W->X, &W->Xst, NULL, WN, W->nrhs, WN + 1);
     W->nprocs = 1; W->opt.fact = DOFACT; W->opt.trans = NOTRANS; W->opt.refact = NO; W->opt.usepr = NO; W->opt.lwork = 0;
     W->trans = NOTRANS; W->equed = NOEQUIL; W->incx = W->incy = 1;
     strcpy(W->cnorm, "1"); strcpy(W->cuplo, "L"); strcpy(W->ctrans, "N"); strcpy(W->cdiag, "U");
